@@ -29,7 +29,7 @@ PROJ = {
 
 # (profile, weight) mixes for the generator
 PROFILES = {
-    "C01": [("sharedkey", 3), ("mix", 2), ("big", 1), ("lifetime", 1)],
+    "C01": [("sharedkey", 3), ("mix", 2), ("big", 1), ("lifetime", 1), ("appreact", 1)],
     "C02": [("recursion", 3), ("deeprec", 2), ("mix", 1), ("big", 1)],
     "C03": [("visibility", 3), ("recursion", 2), ("mix", 1), ("ewr", 1)],
     "C04": [("visibility", 4), ("recursion", 1), ("mix", 1)],
@@ -41,7 +41,7 @@ PROFILES = {
     "C10": [("signals", 3), ("lifetime", 1)],
     "C11": [("recursion", 2), ("mix", 1), ("lifetime", 1), ("removal", 1), ("dsp", 1), ("removal2", 1), ("cascade", 2)],
     "C12": [("recursion", 3), ("deeprec", 1), ("visibility", 2), ("mix", 1), ("ewr", 1)],
-    "C13": [("recursion", 2), ("deeprec", 1), ("mix", 1), ("lifetime", 1)],
+    "C13": [("recursion", 2), ("deeprec", 1), ("appreact", 2), ("mix", 1), ("lifetime", 1)],
     "C14": [("access2", 3), ("access", 2), ("mix", 1)],
     "C15": [("once2", 4), ("once", 1), ("sharedkey", 1), ("mix", 1)],
     "C16": [("ewr", 5), ("wr", 1), ("mix", 1)],
